@@ -53,7 +53,7 @@ func c15Join(s []string) string {
 }
 
 // c15Universe: entry names are spellings of paths over a tiny universe {a, b, a/b, a/c}.
-var c15Names = []string{"a", "a/", "./a", "/a", "b", "a/b", "a//b", "./a/b", "a/c", "/a/b/", "..a", "a/..b"}
+var c15Names = []string{"a", "a/", "./a", "/a", "b", "a/b", "a//b", "./a/b", "a/c", "/a/b/", "..a", "a/..b", "a..b"}
 
 // HarnessC15: K entries over the path universe; kinds file / dir / symlink (target in-tree:
 // a sibling name) / unsupported; arbitrary permissions and times.
@@ -108,8 +108,9 @@ func HarnessC15() {
 		verif.Assert("C15-unrepresentable-entry-fails", err != nil)
 		return
 	}
-	// the reference: well-formedness = a path is not used both as a file/link and as a directory
-	// (incl. implicitly as a parent), and a link is not followed by another entry for the same path
+	// the reference: well-formedness = a path is not used both as a file and as a directory (incl.
+	// implicitly as a parent) and nothing lies below a link; an earlier link is replaced by whatever
+	// comes later for its path
 	for i := range ref {
 		for j := range ref {
 			if i == j {
@@ -117,9 +118,18 @@ func HarnessC15() {
 			}
 			a, b := ref[i], ref[j]
 			if c15SameSegs(a.path, b.path) && a.kind != b.kind {
-				verif.Assume(false)
+				// a link may be followed by anything for the same path (the later entry replaces it);
+				// a file and a directory for one path contradict each other, and so does a link that
+				// comes after either
+				first := a
+				if b.seq < a.seq {
+					first = b
+				}
+				if first.kind != envLink {
+					verif.Assume(false)
+				}
 			}
-			if c15SameSegs(a.path, b.path) && a.kind == envLink {
+			if c15SameSegs(a.path, b.path) && a.kind == envLink && b.kind == envLink {
 				verif.Assume(false) // repeated links: the property speaks of files and directories
 			}
 			if len(b.path) > len(a.path) && c15SameSegs(a.path, b.path[:len(a.path)]) && a.kind != envDir {
